@@ -14,6 +14,7 @@ from simkit import repo
 repo.activate()
 
 from simkit import c16_harness as H  # noqa: E402
+from simkit import c16_pagecache as PG  # noqa: E402
 from simkit.history import check_regular_register  # noqa: E402
 from simkit.rng import seed_globals  # noqa: E402
 from simkit.world import result, run_sim  # noqa: E402
@@ -54,7 +55,9 @@ ASSUMPTIONS = [
     "operations are concurrent iff their [invoke, return] intervals in the single-threaded engine overlap; a read may return "
     "the latest write completed before its invocation, a completed write that overlapped that one, or any write concurrent "
     "with the read (regular register, same rule as C14)",
-    "SoftTTLCache hard TTL is judged at the instant the read is invoked (weaker reading) and age == hard_ttl is not 'older'; "
+    "SoftTTLCache hard TTL is judged at the instant the cache selects the entry: the invocation instant for fresh/stale hits "
+    "(the value is returned one cache-read latency later; weaker reading), the wake-up instant for a reader that joined an "
+    "in-flight refresh (it returns in that same instant; one cache-read latency of slack is granted); age == hard_ttl is not 'older'; "
     "writes made directly to the backing store (other parties) may be served stale for at most hard_ttl, writes made through "
     "the cache API may not be followed by older values at all",
     "2Q ghost entries (A1out) are non-resident by design and are not counted as 'tracked keys'",
@@ -76,7 +79,12 @@ EXPECTED_PROBES = [
     "probe.sttl_refresh_in_flight", "probe.audit_completed",
     # behaviour reachable since the C16 fixes were committed
     "probe.dirty_eviction_written_back", "probe.flush_kept_redirtied_key", "probe.fill_skipped_newer_entry",
-    "probe.sttl_coalesced_reader_refetched",
+    "probe.sttl_coalesced_reader_refetched", "probe.fill_cached_regressed_backing_value",
+    "probe.sttl_coalesced_served_entry_past_half_hard_ttl", "probe.sttl_hard_ttl_below_read_latency",
+    # PageCache family
+    "probe.page_eviction", "probe.page_cache_full", "probe.page_readahead_loaded", "probe.page_dirty_eviction_written_back",
+    "probe.page_readahead_window_over_dirty_page", "probe.page_readahead_over_dirty_page_with_room", "probe.page_write_hit",
+    "probe.page_flush_wrote", "probe.page_audit_completed",
 ]
 SHRINK_SKIP = ("family", "klass")
 
@@ -158,8 +166,32 @@ def _clients(rng, fam, nk, weights, *, own, extra_gaps=(), tiers=0):
     return out
 
 
+def _gen_page(rng):
+    """PageCache: 1-4 clients x read_page/write_page/flush over 4-9 page ids, capacity 1-5, read-ahead 0-3."""
+    nk = rng.randrange(4, 10)
+    n_clients = rng.choice((1, 1, 2, 3, 4))
+    sc = {"seed": rng.getrandbits(48), "family": "page", "n_keys": nk, "cap": rng.randrange(1, 6),
+          "ra": rng.choice((0, 1, 1, 2, 2, 3)), "audit": True,
+          "lat": {"r": rng.choice((100, 200, 500, 1000)), "w": rng.choice((100, 200, 500, 1000, 2000))},
+          "klass": "page-sequential" if n_clients == 1 else "page-concurrent"}
+    clients = []
+    for _ in range(n_clients):
+        ops = []
+        for _ in range(min(30, int(rng.expovariate(1 / 12)) + 4)):
+            o = rng.choices(PG.PAGE_OPS, (10, 8, 1.5))[0]
+            op = {"o": o, "g": _gap(rng)}
+            if o != "pflush":
+                op["k"] = rng.randrange(nk)
+            ops.append(op)
+        clients.append({"t0": rng.choice((0, 0, 100, 500)), "ops": ops})
+    sc["clients"] = clients
+    return sc
+
+
 def gen(rng, tier):
-    fam = rng.choices(H.FAMILIES, (0.62, 0.19, 0.19))[0]
+    fam = rng.choices(H.FAMILIES + ("page",), (0.56, 0.17, 0.17, 0.10))[0]
+    if fam == "page":
+        return _gen_page(rng)
     nk = rng.randrange(3, 9)
     sc = {"seed": rng.getrandbits(48), "family": fam, "n_keys": nk, "lat": _lat(rng),
           "initial": sorted(rng.sample(range(nk), rng.randrange(0, nk + 1))), "audit": True}
@@ -205,7 +237,9 @@ def gen(rng, tier):
             weights["tget"] = 5
         sc["clients"] = _clients(rng, fam, nk, weights, own=own, tiers=nt)
     else:
-        hard = rng.choice((500, 1000, 2000, 3000, 5000))
+        hard = rng.choice((100, 200, 300, 500, 500, 1000, 1000, 2000, 3000, 5000))  # incl. hard TTL < backing read latency
+        if rng.random() < 0.3:
+            sc["lat"]["r"] = rng.choice((1000, 2000, 3000))
         soft = min(hard, rng.choice((0, 200, 500, 1000, hard // 2, hard - 100, hard)))
         sc["soft"], sc["hard"] = soft, hard
         sc["cap"] = rng.choice((1, 1, 2, 2, 3, 4, None))
@@ -227,7 +261,40 @@ def gen(rng, tier):
 # run
 # ---------------------------------------------------------------------------
 
+def fam_is_sttl_short(sc) -> bool:
+    return sc["family"] == "sttl" and sc["hard"] < sc["lat"]["r"]
+
+
+def _run_page(sc):
+    PG.validate_page(sc)
+    seed_globals(int(sc.get("seed", 0)))
+    w = PG.PageWorld(sc, cap=DELIVERY_CAP)
+    status, payload = run_sim(w.sim)
+    sig, msg = None, ""
+    if status in ("violation", "exception"):
+        sig, msg = payload.sig, payload.msg
+        if not sig.startswith(PROPERTY + "/"):
+            sig = f"{PROPERTY}/{sig}"
+    elif status == "ok" and w.audited:
+        w.probe("probe.page_audit_completed")
+        try:
+            w.final_checks()
+        except H.Violation as v:
+            sig, msg = v.sig, v.msg
+    counters = dict(w.probes)
+    counters.update(w.counts)
+    counters[f"cell.page.ra{sc.get('ra', 0)}"] = 1
+    counters["ops_completed"] = w.n_completed
+    counters["budget_exhausted"] = int(status == "budget")
+    interesting = w.probes.get("probe.page_eviction") or w.probes.get("probe.page_readahead_loaded")
+    return result(sig=sig, msg=msg, digest=w.history_digest(), nontrivial=bool(interesting and w.n_completed >= 4),
+                  counters=counters, sim_s=w.mon.last_time_ns / 1e9, deliveries=w.mon.seq,
+                  klass=sc.get("klass", "page"), state=[f"page:ra{sc.get('ra', 0)}|{s}" for s in sorted(w.states)])
+
+
 def run(sc):
+    if isinstance(sc, dict) and sc.get("family") == "page":
+        return _run_page(sc)
     H.validate(sc)
     seed_globals(int(sc.get("seed", 0)))
     w = H.World(sc, cap=DELIVERY_CAP)
@@ -260,6 +327,8 @@ def run(sc):
         cell = "sttl"
         head = "sttl"
     counters = dict(w.probes)
+    if fam_is_sttl_short(sc):
+        counters["probe.sttl_hard_ttl_below_read_latency"] = 1
     counters.update(w.counts)
     # refutation evidence for the DESIGN hypothesis "evict() returning None lets the cache exceed capacity"
     counters.setdefault("evict_returned_none_while_full", 0)
